@@ -194,7 +194,12 @@ static void poll_cb(uv_fs_t* req) {
   ctx = container_of(req, struct poll_ctx, fs_req);
   handle = ctx->parent_handle;
 
-  if (!uv_is_active((uv_handle_t*)handle) || uv__is_closing(handle))
+  /* A context that was superseded by uv_fs_poll_stop() + uv_fs_poll_start()
+   * while its stat request was in flight must not report or poll again.
+   */
+  if (!uv_is_active((uv_handle_t*)handle) ||
+      uv__is_closing(handle) ||
+      handle->poll_ctx != ctx)
     goto out;
 
   if (req->result != 0) {
@@ -220,7 +225,9 @@ static void poll_cb(uv_fs_t* req) {
 out:
   uv_fs_req_cleanup(req);
 
-  if (!uv_is_active((uv_handle_t*)handle) || uv__is_closing(handle)) {
+  if (!uv_is_active((uv_handle_t*)handle) ||
+      uv__is_closing(handle) ||
+      handle->poll_ctx != ctx) {
     uv_close((uv_handle_t*)&ctx->timer_handle, timer_close_cb);
     return;
   }
